@@ -1269,15 +1269,30 @@ def reduce_axis(a, axis, name, dtype, axioms=None):
     f = z3.Function(fresh_name(name), *([z3.IntSort()] * len(rest_shape)), srt) if rest_shape else z3.Const(fresh_name(name), srt)
     s = a.snapshot()
     n = T(a.shape[axis])
+    import inspect as _inspect
+    wants_idx = axioms is not None and len(_inspect.signature(axioms).parameters) >= 4
+
+    def along_at(idx):
+        def along(k):
+            full = list(idx[:axis]) + [k] + list(idx[axis:])
+            return s(tuple(full))
+        return along
+    if axioms is not None:
+        # specification axioms of the reduction, quantified over the remaining indices (pattern: the result term), so that
+        # they are available wherever the result is mentioned - also under other quantifiers
+        qs = [z3.Int(fresh_name("rq")) for _ in rest_shape]
+        with capture_facts() as inner:
+            r_ = f(*qs) if rest_shape else f
+            fx = axioms(along_at(tuple(qs)), n, r_, tuple(qs)) if wants_idx else axioms(along_at(tuple(qs)), n, r_)
+        body_ = z3.And(*fx) if fx else z3.BoolVal(True)
+        if rest_shape:
+            rng_ = z3.And(*[z3.And(q >= 0, q < T(d)) for q, d in zip(qs, rest_shape)])
+            note_fact(z3.ForAll(qs, z3.Implies(rng_, body_), patterns=[f(*qs)]))
+        else:
+            note_fact(body_)
 
     def elem(idx):
-        r = f(*idx) if rest_shape else f
-        if axioms is not None:
-            def along(k):
-                full = list(idx[:axis]) + [k] + list(idx[axis:])
-                return s(tuple(full))
-            note_fact(*axioms(along, n, r))
-        return r
+        return f(*idx) if rest_shape else f
     out = SArr(dtype, rest_shape, elem)
     c = cur()
     if c is not None:
